@@ -6,6 +6,13 @@ from ural.infer_redirection import infer_redirection
 
 _CTRL = re.compile("[\x00-\x1f\x7f-\x9f]")
 _KEYS = re.compile(r"(?:^|[?&])(redirect(?:_to)?|target|redir|next|link|orig|goto|url|[luq])=([^&]+)", re.I)
+_UNRESERVED_ESCAPE = re.compile(r"%(?:4[1-9a-f]|5[0-9a]|6[1-9a-f]|7[0-9a]|3[0-9]|2[de]|5f|7e)", re.I)
+
+
+def _unescape(m):
+    return chr(int(m.group(0)[1:], 16))
+
+
 _HAS_PROTOCOL = re.compile(r"^[a-zA-Z]{0,64}:?//")
 _CACHES = re.compile(r"(?:\.ampproject\.org/[cv]/(?:s/)?|bc\.marfeelcache\.com/amp/|bc\.marfeel\.com/)", re.I)
 
@@ -57,6 +64,8 @@ def step_returns_input_or_embedded_target(u):
     if t == u:
         return True
     cleaned = _CTRL.sub("", u).strip()
+    # a hint may be spelled with escapes of unreserved characters ('%75rl=' is 'url=')
+    cleaned = _UNRESERVED_ESCAPE.sub(_unescape, cleaned)
     # AMP / Marfeel cache: https:// + what follows the cache prefix
     parts = _CACHES.split(cleaned, 1)
     if len(parts) > 1:
